@@ -737,7 +737,33 @@ class Inliner:
         return pre + [st]
 
     # ---------------------------------------------------------------- driver
+    def _unroll_tables_in(self, stmts, module, cls):
+        out = []
+        for st in stmts:
+            for attr in ("body", "orelse", "finalbody"):
+                blk = getattr(st, attr, None)
+                if isinstance(blk, list) and not isinstance(st, (ast.FunctionDef, ast.AsyncFunctionDef, ast.ClassDef)):
+                    setattr(st, attr, self._unroll_tables_in(blk, module, cls))
+            if isinstance(st, ast.Try):
+                for h in st.handlers:
+                    h.body = self._unroll_tables_in(h.body, module, cls)
+            if isinstance(st, ast.For):
+                res = self.unroll_table_loop(st, module, cls)
+                if res is not None:
+                    out.extend(self._unroll_tables_in(res, module, cls))
+                    continue
+            out.append(st)
+        return out
+
     def run(self):
+        # phase 0: loops over constant tables become straight-line code everywhere (also inside helpers, so that a helper whose only
+        # loop was a dispatch table has no `return` inside a loop any more and can be inlined)
+        for m in self.prog.modules.values():
+            for node in ast.walk(m.tree):
+                if isinstance(node, (ast.FunctionDef, ast.AsyncFunctionDef)):
+                    cls0 = node._parent if isinstance(getattr(node, "_parent", None), ast.ClassDef) else _enclosing_class(node)
+                    node.body = self._unroll_tables_in(node.body, m, cls0) or [_pass(node)]
+            relink(m)
         for m in self.prog.modules.values():
             for node in ast.walk(m.tree):
                 if isinstance(node, (ast.FunctionDef, ast.AsyncFunctionDef)):
